@@ -2,3 +2,4 @@
 import Proofs.C03Sym
 import Proofs.C02Fkm
 import Proofs.ThreePoint
+import Proofs.RainflowCorollaries
